@@ -412,7 +412,21 @@ pub fn finalize(
         let repo_refs_after = gitutil::get_all_refs(&opts.target)?;
         if head_ref.status.success() {
             let head = String::from_utf8_lossy(&head_ref.stdout).trim().to_string();
-            if !repo_refs_after.contains_key(&head) {
+            // With chained renames the old name of HEAD's branch may exist again as the new
+            // name of another branch: HEAD still has to follow its own branch.
+            let head_renamed_away = opts.branch_rename.as_ref().is_some_and(|(old, new_)| {
+                head.strip_prefix("refs/heads/").is_some_and(|tail| {
+                    tail.as_bytes().starts_with(&old[..]) && {
+                        let renamed = format!(
+                            "refs/heads/{}{}",
+                            String::from_utf8_lossy(new_),
+                            String::from_utf8_lossy(&tail.as_bytes()[old.len()..])
+                        );
+                        renamed != head && repo_refs_after.contains_key(&renamed)
+                    }
+                })
+            });
+            if head_renamed_away || !repo_refs_after.contains_key(&head) {
                 let mut updated_head: Option<String> = None;
                 if let Some((ref old, ref new_)) = opts.branch_rename {
                     if let Some(tail) = head.strip_prefix("refs/heads/") {
